@@ -136,7 +136,7 @@ func cmdCheck(args []string) int {
 			dl = 3 * 3600
 		}
 		for i := 0; i < n; i++ {
-			wjobs = append(wjobs, wjob{Job{Pkg: h.Pkg, Fn: h.Fn, ShardI: i, ShardN: n, MaxPaths: h.MaxPaths, QTimeout: h.QTimeout, ShardDepth: h.ShardDepth, DeadlineS: dl,
+			wjobs = append(wjobs, wjob{Job{Pkg: h.Pkg, Fn: h.Fn, ShardI: i, ShardN: n, MaxPaths: h.MaxPaths, MaxSteps: h.MaxSteps, QTimeout: h.QTimeout, ShardDepth: h.ShardDepth, DeadlineS: dl,
 				Thorough: *tier == "thorough", Verbose: *verbose, KnownFor: known.labelMap(h.Fn)}, float64(h.Weight)/float64(n) + 0.01})
 		}
 	}
